@@ -209,7 +209,19 @@ func genHeader(c *hx.Ctx, i int) hdrInput {
 			pre = varintPadded(uint64(len(b)), 2+c.Rng.Intn(3))
 		}
 		return hdrInput{data: cat(pre, b, payload), kind: "unusual"}
-	case sel < 93: // short headers (< 4 bytes): the prefetch reads beyond them
+	case sel < 91: // declared length 1 or 2 (cannot carry a protocol ID), plain and padded prefixes
+		bodies := [][]byte{{0x0a}, {0x08}, {0x00}, {0x0b}, {0x0c}, {0x0f}, {0x80}, {0xff}, {0x0a, 0x00}, {0x0a, 0x01}, {0x0a, 0x7f}, {0x0a, 0x80}, {0x10, 0x05}, {0x12, 0x00}, {0x12, 0x01}, {0x0d, 0x01}, {0x09, 0x01}, {0x1b, 0x1c}, {0x80, 0x01}, {0xff, 0xff}}
+		b := bodies[c.Rng.Intn(len(bodies))]
+		pre := varint(uint64(len(b)))
+		if c.Rng.Intn(2) == 0 {
+			pre = varintPadded(uint64(len(b)), 2+c.Rng.Intn(4)) // 5 bytes: longer than the prefetch
+		}
+		tail := c.RandBytes(c.Rng.Intn(7))
+		if c.Rng.Intn(3) == 0 {
+			tail = nil
+		}
+		return hdrInput{data: cat(pre, b, tail), kind: "declared-length-1-2", mustReject: true}
+	case sel < 94: // short headers (< 4 bytes): the prefetch reads beyond them
 		b := [][]byte{{0x10, 0x01}, {0x15}, {0x12, 0x00}, {0x0a, 0x00}, {0x18}}[c.Rng.Intn(5)]
 		return hdrInput{data: cat(varint(uint64(len(b))), b, payload), kind: "short-header"}
 	default:
@@ -246,8 +258,9 @@ func limitCases(c *hx.Ctx) []hdrInput {
 }
 
 // runHeader executes readStreamEstablishHeader + Validate on the real code.
-func runHeader(data []byte, chunks []int) (cls int, pid, rest []byte) {
+func runHeader(data []byte, chunks []int, de bool) (cls int, pid, rest []byte) {
 	r := newChunkReader(data, chunks)
+	r.eofData = de
 	var est *tptc.StreamEstablish
 	var err error
 	if p, _ := hx.Catch(func() { est, err = tptc.VerifReadStreamEstablishHeader(r) }); p {
@@ -272,7 +285,7 @@ func runHeader(data []byte, chunks []int) (cls int, pid, rest []byte) {
 func c07(c *hx.Ctx) {
 	c.Type = "c07_case"
 	c.Agree = "c07_agree"
-	c.Rule = "stream-establish headers: marshalled valid protocol IDs (ASCII/multi-byte UTF-8, 1..260 bytes, two cases at the size limit) + payload under 1-byte / all-at-once / random chunkings; malformed stream: zero and oversized length prefixes, truncations, wrong wire types, bad inner lengths, groups, unknown fields, non-minimal varints, invalid UTF-8, short headers, random bytes; end-to-end HandleIncomingStream with a fake link and a recording HandleMountedStream handler; non-trivial = distinct accepted header or distinct rejected malformed header"
+	c.Rule = "stream-establish headers: marshalled valid protocol IDs (ASCII/multi-byte UTF-8, 1..260 bytes, two cases at the size limit) + payload under 1-byte / all-at-once / random chunkings, a quarter of them with the last bytes delivered together with io.EOF; malformed stream: zero and oversized length prefixes, truncations, declared lengths 1 and 2, padded (non-minimal) varint prefixes, wrong wire types, bad inner lengths, groups, unknown fields, non-minimal varints, invalid UTF-8, short headers, random bytes; end-to-end HandleIncomingStream with a fake link and a recording HandleMountedStream handler; non-trivial = distinct accepted header or distinct rejected malformed header"
 	// marshal
 	for i := 0; i < c.N/10; i++ {
 		pid := validPid(c, c.Rng.Intn(30))
@@ -287,10 +300,10 @@ func c07(c *hx.Ctx) {
 	// the theorems cover every size)
 	for _, in := range limitCases(c) {
 		chunks := []int{3, 1, 70000, 5}
-		cls, pid, rest := runHeader(in.data, chunks)
+		cls, pid, rest := runHeader(in.data, chunks, false)
 		c.Eval()
 		c.Class(in.kind)
-		headerOracle(c, in, cls, pid, rest, map[string]any{"kind": in.kind, "len": len(in.data), "chunks": chunks, "class": cls, "data_prefix": hx.Hex(clip(in.data))})
+		headerOracle(c, in, false, cls, pid, rest, map[string]any{"kind": in.kind, "len": len(in.data), "chunks": chunks, "class": cls, "data_prefix": hx.Hex(clip(in.data))})
 	}
 	inputs := []hdrInput{}
 	for i := 0; i < c.N; i++ {
@@ -298,16 +311,20 @@ func c07(c *hx.Ctx) {
 	}
 	for _, in := range inputs {
 		chunks, cname := chunksFor(c, len(in.data))
-		cls, pid, rest := runHeader(in.data, chunks)
-		desc := map[string]any{"kind": in.kind, "chunking": cname, "chunks": chunks, "data": hx.Hex(clip(in.data)), "len": len(in.data), "class": cls, "pid": hx.Hex(clip(pid)), "rest": hx.Hex(rest)}
-		c.Case(hx.App("Hdr", natList(chunks), hx.Bytes(in.data), hx.Nat(cls), hx.Bytes(pid), hx.Bytes(rest)), desc)
+		de := c.Rng.Intn(4) == 0 // the last bytes arrive together with io.EOF
+		cls, pid, rest := runHeader(in.data, chunks, de)
+		desc := map[string]any{"kind": in.kind, "eof_with_last_read": de, "chunking": cname, "chunks": chunks, "data": hx.Hex(clip(in.data)), "len": len(in.data), "class": cls, "pid": hx.Hex(clip(pid)), "rest": hx.Hex(rest)}
+		c.Case(hx.App("Hdr", hx.Bool(de), natList(chunks), hx.Bytes(in.data), hx.Nat(cls), hx.Bytes(pid), hx.Bytes(rest)), desc)
 		c.Class(in.kind + "/" + cname)
+		if de {
+			c.Class("eof-with-last-read/" + in.kind)
+		}
 		c.Class("outcome-" + map[int]string{0: "accepted", 1: "eof", 2: "header-error", 7: "empty-pid", 8: "invalid-pid", 99: "panic"}[cls])
 		c.Nontrivial(in.kind + hx.Hex(clip(in.data)))
-		headerOracle(c, in, cls, pid, rest, desc)
+		headerOracle(c, in, de, cls, pid, rest, desc)
 		// chunking independence, directly: the other two styles must give the same result
 		for _, alt := range [][]int{c.Chunking(len(in.data), 0), nil} {
-			c2, p2, r2 := runHeader(in.data, alt)
+			c2, p2, r2 := runHeader(in.data, alt, de)
 			c.Eval()
 			if c2 != cls || !bytes.Equal(p2, pid) || !bytes.Equal(r2, rest) {
 				c.Failf("header-depends-on-chunking", desc, "chunking %v gives class %d pid %x rest %x, chunking %v gives class %d pid %x rest %x", chunks, cls, pid, rest, alt, c2, p2, r2)
@@ -324,12 +341,14 @@ func clip(b []byte) []byte {
 	return b
 }
 
-func headerOracle(c *hx.Ctx, in hdrInput, cls int, pid, rest []byte, desc any) {
+func headerOracle(c *hx.Ctx, in hdrInput, de bool, cls int, pid, rest []byte, desc any) {
 	if cls == 99 {
 		c.Failf("header-panic", desc, "readStreamEstablishHeader panicked")
 	}
 	if in.mustAccept {
-		if cls != 0 {
+		if cls != 0 && de {
+			c.Failf("valid-header-rejected/eof-with-last-read", desc, "a marshalled header of a valid protocol ID was rejected (class %d) when the Read delivering the last bytes also reported io.EOF", cls)
+		} else if cls != 0 {
 			c.Failf("valid-header-rejected", desc, "a marshalled header of a valid protocol ID was rejected (class %d)", cls)
 		} else {
 			if !bytes.Equal(pid, in.pid) {
@@ -466,13 +485,15 @@ func c07dispatch(c *hx.Ctx) {
 		ri := (li + 1 + c.Rng.Intn(len(peers)-1)) % len(peers)
 		lnk := &fakeLink{local: peer.ID(peers[li]), remote: peer.ID(peers[ri])}
 		chunks, cname := chunksFor(c, len(in.data))
+		de := c.Rng.Intn(4) == 0
 		strm := &fakeStream{chunkReader: newChunkReader(in.data, chunks)}
+		strm.eofData = de
 		before := len(rec.recs)
 		panicked, _ := hx.Catch(func() { ctrl.HandleIncomingStream(ctx, nil, lnk, strm, stream.OpenOpts{}) })
 		rec.mu.Lock()
 		got := append([]dispatchRec{}, rec.recs[before:]...)
 		rec.mu.Unlock()
-		desc := map[string]any{"kind": "dispatch/" + in.kind, "chunking": cname, "chunks": chunks, "data": hx.Hex(in.data), "local": peers[li], "remote": peers[ri], "dispatched": len(got), "closed": strm.closed}
+		desc := map[string]any{"kind": "dispatch/" + in.kind, "eof_with_last_read": de, "chunking": cname, "chunks": chunks, "data": hx.Hex(in.data), "local": peers[li], "remote": peers[ri], "dispatched": len(got), "closed": strm.closed}
 		c.Class("dispatch/" + in.kind)
 		if panicked {
 			c.Failf("dispatch-panic", desc, "HandleIncomingStream panicked")
@@ -484,7 +505,7 @@ func c07dispatch(c *hx.Ctx) {
 			desc["pid"] = hx.Hex([]byte(d.pid))
 			desc["rest"] = hx.Hex(d.rest)
 		}
-		c.Case(hx.App("Disp", natList(chunks), hx.Str(peers[li]), hx.Str(peers[ri]), hx.Bytes(in.data), hx.Bool(len(got) > 0),
+		c.Case(hx.App("Disp", hx.Bool(de), natList(chunks), hx.Str(peers[li]), hx.Str(peers[ri]), hx.Bytes(in.data), hx.Bool(len(got) > 0),
 			hx.Str(d.pid), hx.Str(d.local), hx.Str(d.remote), hx.Bytes(d.rest)), desc)
 		if len(got) > 0 {
 			c.Nontrivial("disp" + hx.Hex(in.data) + peers[li] + peers[ri])
@@ -493,7 +514,9 @@ func c07dispatch(c *hx.Ctx) {
 		if len(got) > 1 {
 			c.Failf("dispatched-twice", desc, "one stream was dispatched %d times", len(got))
 		}
-		if in.mustAccept && len(got) == 0 {
+		if in.mustAccept && len(got) == 0 && de {
+			c.Failf("valid-stream-not-dispatched/eof-with-last-read", desc, "valid header for %x was not dispatched when the Read delivering the last bytes also reported io.EOF", in.pid)
+		} else if in.mustAccept && len(got) == 0 {
 			c.Failf("valid-stream-not-dispatched", desc, "valid header for %x was not dispatched", in.pid)
 		}
 		if in.mustReject && len(got) > 0 {
